@@ -80,11 +80,11 @@ Definition st_eqb (a b : st) : bool :=
 
 (* a search configuration: model state; sends started but not yet received; received but the
    producer has not yet logged completion; whether the return of Start has been observed *)
-Record cfg := Cfg { c_st : st; c_pend : list ev; c_unack : list ev; c_ret : bool }.
+Record cfg := Cfg { c_st : st; c_pend : list ev; c_unack : list ev; c_ret : bool; c_nrecv : nat }.
 
 Definition cfg_eqb (a b : cfg) : bool :=
   st_eqb (c_st a) (c_st b) && list_eqb (c_pend a) (c_pend b) && list_eqb (c_unack a) (c_unack b) &&
-  Bool.eqb (c_ret a) (c_ret b).
+  Bool.eqb (c_ret a) (c_ret b) && Nat.eqb (c_nrecv a) (c_nrecv b).
 
 Fixpoint memb (x : nat) (l : list nat) : bool :=
   match l with [] => false | y :: l' => if Nat.eqb x y then true else memb x l' end.
@@ -99,36 +99,52 @@ Fixpoint insert (x : nat) (l : list nat) : list nat :=
   | y :: l' => if Nat.leb x y then x :: l else y :: insert x l'
   end.
 
-Definition with_st (c : cfg) (s : st) : cfg := Cfg s (c_pend c) (c_unack c) (c_ret c).
+Definition with_st (c : cfg) (s : st) : cfg := Cfg s (c_pend c) (c_unack c) (c_ret c) (c_nrecv c).
 
 Definition try_step (c : cfg) (l : label) : list cfg :=
   match step (c_st c) l with Some (s, _) => [with_st c s] | None => [] end.
 
-(* the invisible actions enabled in c *)
-Definition internal (c : cfg) : list cfg :=
-  flat_map (fun e => match step (c_st c) (LRecv e false) with
-                     | Some (s, _) => [Cfg s (remove1 e (c_pend c)) (insert e (c_unack c)) (c_ret c)]
-                     | None => []
-                     end) (c_pend c)
+(* The invisible actions enabled in c.  [order] = the delivered events in the order the log's batches
+   show them (the log is known in full when the search runs).  Two prunings keep the search small
+   without changing its answer:
+   - an event that appears in some batch can only have been received when all events before it in
+     [order] had been (the model hands events over in the order received, so any other choice is a
+     run that cannot produce the logged batches);
+   - an event that appears in no batch is never observed again, so it is received as the
+     placeholder 0 (the harness uses ids >= 1): the k! orders of such events collapse. *)
+Definition internal (order : list ev) (c : cfg) : list cfg :=
+  flat_map (fun e =>
+              if memb e order then
+                if Nat.eqb (nth (c_nrecv c) order 0) e then
+                  match step (c_st c) (LRecv e false) with
+                  | Some (s, _) => [Cfg s (remove1 e (c_pend c)) (insert e (c_unack c)) (c_ret c) (S (c_nrecv c))]
+                  | None => []
+                  end
+                else []
+              else
+                match step (c_st c) (LRecv 0 false) with
+                | Some (s, _) => [Cfg s (remove1 e (c_pend c)) (insert e (c_unack c)) (c_ret c) (c_nrecv c)]
+                | None => []
+                end) (c_pend c)
   ++ flat_map (fun i => try_step c (LTakeDone i)) (seq 0 (length (hgs (c_st c))))
   ++ try_step c LSeeCancel.
 
 Fixpoint cfg_mem (c : cfg) (l : list cfg) : bool :=
   match l with [] => false | d :: l' => if cfg_eqb c d then true else cfg_mem c l' end.
 
-Fixpoint closure (fuel : nat) (todo seen : list cfg) : list cfg :=
+Fixpoint closure (order : list ev) (fuel : nat) (todo seen : list cfg) : list cfg :=
   match fuel with
   | 0 => seen
   | S f =>
       match todo with
       | [] => seen
       | c :: todo' =>
-          if cfg_mem c seen then closure f todo' seen
-          else closure f (internal c ++ todo') (c :: seen)
+          if cfg_mem c seen then closure order f todo' seen
+          else closure order f (internal order c ++ todo') (c :: seen)
       end
   end.
 
-Definition closure_fuel := 4000.
+Definition closure_fuel := 200 * 100.
 
 Definition begin_obs (c : cfg) (b : list ev) (is_end : bool) : list cfg :=
   flat_map (fun i =>
@@ -145,8 +161,8 @@ Definition consume (b0 : list ev) (fail : bool) (dn : list ev) (c : cfg) (o : oe
   match o with
   | OPrepare => try_step c (if fail then LPrepareFail else LPrepare b0)
   | OCancel => try_step c LCancel
-  | OSendStart e => if memb e dn then [Cfg (c_st c) (insert e (c_pend c)) (c_unack c) (c_ret c)] else [c]
-  | OSendDone e => if memb e (c_unack c) then [Cfg (c_st c) (c_pend c) (remove1 e (c_unack c)) (c_ret c)] else []
+  | OSendStart e => if memb e dn then [Cfg (c_st c) (insert e (c_pend c)) (c_unack c) (c_ret c) (c_nrecv c)] else [c]
+  | OSendDone e => if memb e (c_unack c) then [Cfg (c_st c) (c_pend c) (remove1 e (c_unack c)) (c_ret c) (c_nrecv c)] else []
   | OSendAbort e =>
       (* a producer gives up only after the harness has seen Start return *)
       if negb (memb e dn) && c_ret c then [c] else []
@@ -154,20 +170,23 @@ Definition consume (b0 : list ev) (fail : bool) (dn : list ev) (c : cfg) (o : oe
   | OEnd b => begin_obs c b true
   | OReturn err =>
       if negb (c_ret c) && lphase_eqb (phase (c_st c)) (if err then LErr else LRet)
-      then [Cfg (c_st c) (c_pend c) (c_unack c) true] else []
+      then [Cfg (c_st c) (c_pend c) (c_unack c) true (c_nrecv c)] else []
   | OQuiet => [c]
   | OStall _ => []      (* the model never gets stuck: see Props, progress theorems *)
   end.
 
-Definition sim_step (b0 : list ev) (fail : bool) (dn : list ev) (cs : list cfg) (o : oev) : list cfg :=
+Definition sim_step (b0 : list ev) (fail : bool) (dn order : list ev) (cs : list cfg) (o : oev) : list cfg :=
   match cs with
   | [] => []
-  | _ => closure closure_fuel (flat_map (fun c => consume b0 fail dn c o) cs) []
+  | _ => closure order closure_fuel (flat_map (fun c => consume b0 fail dn c o) cs) []
   end.
 
 Definition incl_ok (c : case) : bool :=
   let dn := flat_map (fun o => match o with OSendDone e => [e] | _ => [] end) (k_log c) in
-  match fold_left (sim_step (k_b0 c) (k_fail c) dn) (k_log c) (closure closure_fuel [Cfg init [] [] false] []) with
+  let order := skipn (length (k_b0 c))
+                     (concat (flat_map (fun o => match o with OBegin b => [b] | _ => [] end) (k_log c))) in
+  match fold_left (sim_step (k_b0 c) (k_fail c) dn order) (k_log c)
+                  (closure order closure_fuel [Cfg init [] [] false 0] []) with
   | [] => false
   | _ => true
   end.
